@@ -56,7 +56,7 @@ vars      == <<implVars, ghostVars, hist, sched>>
 viewNoHist == <<implVars, ghostVars>>
 viewNoSched == <<implVars, ghostVars, hist>>
 
-NoOp == [op |-> "none", s |-> None, n |-> None, res |-> 0, ep |-> 0, all |-> FALSE]
+NoOp == [op |-> "none", s |-> None, n |-> None, res |-> 0, ep |-> 0, all |-> FALSE, pre |-> FALSE]
 
 TypeOK ==
   /\ cache \in [Sets -> [Names -> Nat]]
@@ -182,14 +182,15 @@ FcUnlock(t) ==
   /\ UNCHANGED <<cache, debug, file, bannedT, bannedF, frozen, ghostVars>>
 
 ----------------------------------------------------------------------------
-(* CleanCache() / CleanCache(n) *)
+(* CleanCache() / CleanCache(n) / CleanCache(x, n): several names in one call, the first of which the cache has never held *)
 
-CcBegin(t, s, n, all) ==
-  /\ Sched("CcBegin", t, s, n, IF all THEN 1 ELSE 0)
+CcFlag(all, pre) == IF all THEN 1 ELSE IF pre THEN 2 ELSE 0
+CcBegin(t, s, n, all, pre) ==
+  /\ Sched("CcBegin", t, s, n, CcFlag(all, pre))
   /\ pc[t] = "idle" /\ nops[t] < MaxOps
   /\ nops' = [nops EXCEPT ![t] = @ + 1]
   /\ pc' = [pc EXCEPT ![t] = "ccwait"]
-  /\ cur' = [cur EXCEPT ![t] = [NoOp EXCEPT !.op = "CleanCache", !.s = s, !.n = n, !.all = all]]
+  /\ cur' = [cur EXCEPT ![t] = [NoOp EXCEPT !.op = "CleanCache", !.s = s, !.n = n, !.all = all, !.pre = pre]]
   /\ UNCHANGED <<cache, debug, mutex, file, bannedT, bannedF, frozen,
                  nextId, tplVer, tplEpoch, epoch, loads, fetches, nenv, hist>>
 
@@ -203,10 +204,10 @@ CcLock(t) ==
 
 CcCrit(t) ==
   LET s == cur[t].s IN
-  /\ Sched("CcCrit", t, cur[t].s, cur[t].n, IF cur[t].all THEN 1 ELSE 0)
+  /\ Sched("CcCrit", t, cur[t].s, cur[t].n, CcFlag(cur[t].all, cur[t].pre))
   /\ pc[t] = "cccrit"
   /\ pc' = [pc EXCEPT ![t] = "ccunlock"]
-  /\ LET hit(n) == cur[t].all \/ n = cur[t].n IN
+  /\ LET hit(n) == cur[t].all \/ n = cur[t].n IN           \* (every name of the call is dropped, whatever else the call names)
      /\ cache' = [cache EXCEPT ![s] = [n \in Names |-> IF hit(n) THEN 0 ELSE cache[s][n]]]
      /\ epoch' = [epoch EXCEPT ![s] = [n \in Names |-> IF hit(n) THEN epoch[s][n] + 1 ELSE epoch[s][n]]]
      /\ loads' = [loads EXCEPT ![s] = [n \in Names |-> IF hit(n) THEN 0 ELSE loads[s][n]]]
@@ -219,7 +220,7 @@ CcUnlock(t) ==
   /\ mutex' = [mutex EXCEPT ![cur[t].s] = None]
   /\ pc' = [pc EXCEPT ![t] = "idle"]
   /\ Done(t, [op |-> "CleanCache", s |-> cur[t].s, n |-> cur[t].n, res |-> 0,
-              how |-> IF cur[t].all THEN "all" ELSE "one", ver |-> 0])
+              how |-> IF cur[t].all THEN "all" ELSE IF cur[t].pre THEN "pre" ELSE "one", ver |-> 0])
   /\ cur' = [cur EXCEPT ![t] = NoOp]
   /\ UNCHANGED <<cache, debug, file, bannedT, bannedF, frozen, ghostVars>>
 
@@ -290,8 +291,8 @@ Compile(t, s, usesT, usesF, how) ==
 NextCache ==
   \/ \E t \in Threads, s \in Sets, n \in Names : FcBegin(t, s, n)
   \/ \E t \in Threads : FcLock(t) \/ FcCrit(t) \/ FcUnlock(t) \/ CcLock(t) \/ CcCrit(t) \/ CcUnlock(t)
-  \/ \E t \in Threads, s \in Sets, n \in Names : CcBegin(t, s, n, FALSE)
-  \/ \E t \in Threads, s \in Sets : CcBegin(t, s, CHOOSE n \in Names : TRUE, TRUE)
+  \/ \E t \in Threads, s \in Sets, n \in Names, pre \in BOOLEAN : CcBegin(t, s, n, FALSE, pre)
+  \/ \E t \in Threads, s \in Sets : CcBegin(t, s, CHOOSE n \in Names : TRUE, TRUE, FALSE)
   \/ \E s \in Sets, b \in BOOLEAN : SetDebug(s, b)
   \/ \E n \in Names, v \in 0..MaxVer : ChangeFile(n, v)
 
